@@ -117,7 +117,7 @@ func (ts *TS) runFn(fr *Frame, initA string, env Env, trail []string) []TSOut {
 		}
 		visited[key] = true
 		ts.States++
-		if ts.States > 200000 {
+		if ts.States > 60000 {
 			ts.Truncated = append(ts.Truncated, "state budget exceeded in "+fname(fn))
 			break
 		}
